@@ -541,8 +541,16 @@ pub fn run_raw<W: Write>(lines: &[String], oracle: bool, out: &mut W) {
                     "c".to_string()
                 }
                 "reserve" => {
-                    t.reserve(tk[1].parse().unwrap());
-                    "v".to_string()
+                    let n: usize = tk[1].parse().unwrap();
+                    if n >= (1usize << 59) {
+                        // a request no allocator can satisfy: the call must fail cleanly (capacity overflow) and leave the table
+                        // usable -- an unwinding safe call must not corrupt it
+                        let r = catch_unwind(AssertUnwindSafe(|| t.reserve(n)));
+                        if r.is_err() { "v refused".to_string() } else { "v".to_string() }
+                    } else {
+                        t.reserve(n);
+                        "v".to_string()
+                    }
                 }
                 "iter" => {
                     let it = t.iter();
